@@ -77,6 +77,8 @@ func (p *compressionPool) compress(dst, src *bytes.Buffer) error {
 	}
 	comp, _ := p.compressors.Get().(connect.Compressor)
 	defer p.compressors.Put(comp)
+	verifCodecGet(p, "compress", comp)
+	defer verifCodecPut(p, "compress", comp)
 
 	comp.Reset(dst)
 	if _, err := src.WriteTo(comp); err != nil {
@@ -92,6 +94,8 @@ func (p *compressionPool) decompress(dst, src *bytes.Buffer) error {
 	}
 	decomp, _ := p.decompressors.Get().(connect.Decompressor)
 	defer p.decompressors.Put(decomp)
+	verifCodecGet(p, "decompress", decomp)
+	defer verifCodecPut(p, "decompress", decomp)
 
 	if err := decomp.Reset(src); err != nil {
 		return err
